@@ -62,6 +62,12 @@ CLAIMS = {
  "C18": ("other", "exact stream-position algebra on explored parser paths (abstract interpretation) + CFG must-pass-through of the completeness test + flow rules on buffering",
    "Once the metadata is complete no further chunk/segment is read (path ends exactly at the end of the completing chunk; and in the CFG every completion point is followed by `if allMetadataExtracted() { break }` on every path back to the loop header); IDAT/IEND and SOS/EOI stop without further reads; exactly one bufio layer of at most 64 KiB and no read-to-EOF on the source; the WebP parser is loop-free and ends at the end of the header or right after the ICCP payload; reading a JPEG marker consumes exactly 2 or 4 bytes (no forward scanning).",
    "Trusted: go/ssa, the interpreter, bufio's read-ahead bound. Not decided: the measured byte count and the truncation clause (runtime quantities); damaged profiles are outside the statement.", "DESIGN.md §4 C18"),
+ "C09": ("other", "guarded call-graph reachability for panics (recover frames + recognised bounds-check idioms), path-sensitive allocation-size analysis on the abstract interpretation of the parsers, loop-progress and loop-allocation analyses (go/ssa)",
+   "Structural necessary conditions for every input: every potentially panicking instruction reached from a public entry outside a recover-armed frame matches a sound guard idiom (incl. widen-before-add); on every explored path each make() length is constant, built from <= 16 input bits, or bounded by a preceding comparison with data actually held, with subtractions protected from wrap-around, and every make site is covered; no input-sized allocation inside an input-bounded loop (this rule found the quadratic mluc decode, repaired in /repo); every loop has a bounded trip count or makes stream progress with error exit; no reader is repositioned. Actual time/memory totals are runtime quantities and are not measured.",
+   "Trusted: go/ssa, the interpreter (bounded exploration), recover semantics, bytes.Buffer/io.CopyN growth. Not decided: zlib expansion ratio (<= 1032:1 by format), stack depth, measured totals.", "DESIGN.md §4 C09"),
+ "C17": ("other", "bounded abstract interpretation of the ICC tag-table reader and description parsers over symbolic bytes with exact positions (go/ssa)",
+   "Tag count/entries are BE32 at 128 / 132+12j, each tag's bytes are tagData[offset-(132+12*count) : +size] under its own signature, the bulk read covers the furthest entry whichever it is, zero tags succeed; the description is entries['desc'] dispatched on BE32 data[0:4] ('desc'/'mluc'/error); text = data[12:12+count-1]; mluc record j at 16+j*recordSize with text = data[offset:offset+length] from the record's own offset/length fields, decoded as string(utf16.Decode(big-endian units)); English asked first, any record as fallback. Decided on all explored paths (<= 2 tags/records) with generic-iteration summaries for inner loops.",
+   "Trusted: go/ssa, the interpreter, bytes.Reader/io.CopyN contracts, unicode/utf16. Not decided: utf16.Decode's surrogate handling, map iteration order, duplicate signatures.", "DESIGN.md §4 C17"),
 }
 
 PENDING_REASON = "check not built yet in this revision (static rules designed in DESIGN.md §4; see git log) — not claimed until the checker for it is committed"
